@@ -176,6 +176,18 @@ def checkerOK (edges : List (Nat × Nat)) (sorted : List Nat) (k : Nat) (flow : 
   (if ces.isEmpty then decide (flow = 0)
    else cutCertOK ces 0 1 res flow (sideOf edges sorted k left) tree)
 
+/-- what the judge executes: `checkerOK` with the tabulated certificate check
+    (`Tbx.BisectionTheory.checkerFast_eq`) -/
+def checkerFast (edges : List (Nat × Nat)) (sorted : List Nat) (k : Nat) (flow : Int)
+    (left right : List Nat) (res : List E) (tree : List (Nat × Nat)) : Bool :=
+  let S := firstK sorted k
+  let T := lastK sorted k
+  let ces := contract S T edges
+  preOK edges sorted k && structOK edges sorted k flow left right &&
+  left.all (fun x => decide (rho S T x < nNodes ces)) &&
+  (if ces.isEmpty then decide (flow = 0)
+   else cutCertFast ces 0 1 res flow (sideOf edges sorted k left) tree)
+
 /-! ### exact binary64 rounding -/
 
 def log2 (a : Nat) : Nat := Nat.log2 a
